@@ -54,4 +54,17 @@ CHECKS = {
                     "real-number semantics of sqrt/sin/cos/rpow and the real pi for the easing proofs"],
         "assumptions": ["|a|,|b| <= 2^23 for the exact lerp claims (the property's own premise)"],
     },
+    "C18": {
+        "manifest_text": "Lean theorems over a model of is_dyn/is_dyn_pattern/is_dyn_block/is_dyn_macro with one constructor per syn::Expr (40), syn::Pat (17) and syn::Stmt (4) variant: every expression that contains a call, method call, macro other than view!, await, ? or assignment outside closures/const blocks/items is emitted as a reactive closure (C18_conservative), and whatever is emitted static is evaluation-free (C18_static_sound) — mutual structural induction, all expressions, no depth bound. Tied to /repo by running the real Codegen (direct IR and through the view! parser, child + 3 attribute positions) on source text parsed by syn and comparing with the model on the converted AST.",
+        "manifest_note": "Trusted: syn's parser and the hand-written syn->model AST conversion in the harness (a structural map; errors show up as divergences); reading decisions in DESIGN.md §5 C18 (compound assignment is a binary operator; const blocks/items/closures opaque; types are compile-time).",
+        "lean_modules": ["SycVerif.Props.C18"],
+        "theorems": ["SycVerif.IsDyn.C18_conservative", "SycVerif.IsDyn.C18_static_sound"],
+        "engines": [{"harness": "native", "engine": "isdyn", "proto": "isdyn"}],
+        "status": "full statement proved over the model (all expressions of the grammar)",
+        "rule": "source text built from 66 expression, 24 pattern and 14 statement templates: depth<=1 over all leaves and depth 2 over depth-1 fillers (complete per template when within the per-template budget 1500 quick / 40000 thorough, otherwise a seeded sample of that size), plus 20k (quick) / 300k (thorough) random expressions of depth 2..6; each parsed by syn, classified by the real Codegen at 6 sites. distinct = distinct model S-expression; non-trivial = at least one sub-term",
+        "exhaustive_blocks_quick": "templates whose filler product is <= 1500 are enumerated completely (all one-hole templates over all leaves)",
+        "exhaustive_blocks_thorough": "templates whose filler product is <= 40000 are enumerated completely",
+        "trusted": ["syn 2 parser; the syn->S-expression converter in harness/native/src/isdyn.rs; the independent containsEval visitor (oracle) in the same file"],
+        "assumptions": ["the view! macro passes interpolations to Codegen::node/attribute unchanged (sycamore-macro/src/lib.rs: parse -> Codegen::root)"],
+    },
 }
